@@ -58,12 +58,25 @@ try:
     os.makedirs(scratch + '_verif/evidence', exist_ok=True)
     shutil.copy('/verif/known_findings.json', scratch + '_verif/known_findings.json')
     fired = {}
+    def badkeys(evfile):
+        try:
+            ev = json.load(open(evfile))
+        except Exception:
+            return {'<no evidence>'}
+        return {o['key'] for o in ev['coverage'].get('samples', []) if o['status'] != 'discharged'} | ({'<incomplete>'} if not ev['coverage'].get('samples') else set())
+    os.makedirs('/tmp/seed/base_verif/evidence', exist_ok=True)
+    shutil.copy('/verif/known_findings.json', '/tmp/seed/base_verif/known_findings.json')
     for i in ids:
-        r = subprocess.run(['/verif/bin/grogcheck', 'check', i, '-repo', scratch, '-verif', scratch + '_verif'], env=env, capture_output=True, text=True)
-        if r.returncode != 0:
-            fired[i] = [l.strip() for l in r.stdout.splitlines() if l.strip().startswith(('violated', 'undecided', 'analysis'))][:4]
+        basef = '/tmp/seed/base_verif/evidence/%s.json' % i
+        if not os.path.exists(basef) or os.path.getmtime(basef) < os.path.getmtime('/verif/bin/grogcheck'):
+            subprocess.run(['/verif/bin/grogcheck', 'check', i, '-repo', '/repo', '-verif', '/tmp/seed/base_verif'], env=env, capture_output=True, text=True)
+        subprocess.run(['/verif/bin/grogcheck', 'check', i, '-repo', scratch, '-verif', scratch + '_verif'], env=env, capture_output=True, text=True)
+        new = badkeys(scratch + '_verif/evidence/%s.json' % i) - badkeys(basef)
+        if new:
+            fired[i] = sorted(new)[:6]
     res['fired'] = fired
     res['detected_by_own_property'] = meta.get('property') in fired
+    res['detected'] = bool(fired)
 finally:
     shutil.rmtree(scratch, ignore_errors=True); shutil.rmtree(scratch + '_verif', ignore_errors=True)
 print(json.dumps(res, indent=1))
